@@ -21,4 +21,11 @@ def histOk (opus : Bool) : List (UInt16 × Option Bytes) → List PayObs → Boo
   | (m, i) :: cs, o :: os => callOk opus m i o && histOk opus cs os
   | _, _ => false
 
+/-- C08's parenthesis "Opus alone ignores the MTU and returns the input as one fragment", per call,
+    for every MTU from 0 (nil input: the text does not say, nothing is demanded) -/
+def opusOneFragment : List (UInt16 × Option Bytes) → List PayObs → Bool
+  | (_, some b) :: cs, o :: os => o.frags == [b] && opusOneFragment cs os
+  | (_, none) :: cs, _ :: os => opusOneFragment cs os
+  | _, _ => true
+
 end Rtp.Pred.C08
